@@ -363,3 +363,217 @@ Proof.
   - unfold src. destruct s, (m_put m') as [[c x]|]; auto.
   - destruct (ex_src ml q); auto.
 Qed.
+
+(* ---------- moves interleaved with deletions of leaves ---------- *)
+(* (the repaired rename loop removes a renamed entry whose kind or symlink
+   target changed at its old path, between the staging renames) *)
+Lemma incomp_sym a b : incomp a b -> incomp b a.
+Proof. intros [A B]. split; assumption. Qed.
+
+Lemma moves_pre_step m ml f f1 :
+  moves_pre (m :: ml) f -> (forall q, look f1 q = moved [m] (look f) q) -> moves_pre ml f1.
+Proof.
+  intros [Psrc Pa Pb Pab Pfree Ppar] L1.
+  assert (In m (m :: ml)) as Im by (left; reflexivity).
+  simpl in Pa, Pb. destruct Pa as [Pa1 Pa2], Pb as [Pb1 Pb2].
+  assert (forall m', In m' ml -> incomp (m_a m) (m_a m')) as Haa
+    by (intros m' I; apply Pa1; apply in_map; exact I).
+  assert (forall m', In m' ml -> incomp (m_b m) (m_b m')) as Hbb
+    by (intros m' I; apply Pb1; apply in_map; exact I).
+  assert (forall q, prefixb (m_a m) q = false -> prefixb (m_b m) q = false ->
+                    look f1 q = look f q) as Same.
+  { intros q Ha Hb. rewrite L1. unfold moved. simpl.
+    rewrite (under_prefixb_false _ _ Hb). unfold ex_src. simpl. rewrite Ha. reflexivity. }
+  constructor.
+  - intros m' I. destruct (Psrc m' (or_intror I)) as (nd & La & Hp).
+    exists nd. split.
+    + rewrite Same; [exact La| |].
+      * apply (Haa m' I).
+      * destruct (Pab m' m (or_intror I) Im) as [A B]. exact B.
+    + intros NP. destruct (Hp NP) as [ND PO]. split; [exact ND|].
+      rewrite <- PO. apply parent_ok_ext. intros _.
+      apply Same.
+      * destruct (prefixb (m_a m) (parent (m_a m'))) eqn:E; [|reflexivity].
+        apply prefix_parent_prefix in E. destruct (Haa m' I). congruence.
+      * destruct (prefixb (m_b m) (parent (m_a m'))) eqn:E; [|reflexivity].
+        apply prefix_parent_prefix in E.
+        destruct (Pab m' m (or_intror I) Im). congruence.
+  - exact Pa2.
+  - exact Pb2.
+  - intros m1 m2 I1 I2. apply Pab; right; assumption.
+  - intros m' s I. rewrite Same.
+    + apply Pfree; right; exact I.
+    + apply incomp_not_under. apply Pab; [exact Im|right; exact I].
+    + apply incomp_not_under. apply Hbb; exact I.
+  - intros m' I. destruct (Ppar m' (or_intror I)) as [PO NU]. split.
+    + rewrite <- PO. apply parent_ok_ext. intros _.
+      apply Same.
+      * apply NU; exact Im.
+      * destruct (prefixb (m_b m) (parent (m_b m'))) eqn:E; [|reflexivity].
+        apply prefix_parent_prefix in E. destruct (Hbb m' I). congruence.
+    + intros m2 I2. apply NU; right; exact I2.
+Qed.
+
+Inductive item := IMv (m : mv) | IRm (a : path) (isdir : bool).
+
+Definition exec_item (it : item) (f : fs) : res fs :=
+  match it with
+  | IMv m => exec_mv m f
+  | IRm a true => t_rmdir a f
+  | IRm a false => t_delete a f
+  end.
+
+Fixpoint run_items (l : list item) (f : fs) : fs * option err :=
+  match l with
+  | [] => (f, None)
+  | it :: l' => match exec_item it f with
+                | Ok f' => run_items l' f'
+                | Er e => (f, Some e)
+                end
+  end.
+
+Fixpoint mvs_of (l : list item) : list mv :=
+  match l with [] => [] | IMv m :: r => m :: mvs_of r | IRm _ _ :: r => mvs_of r end.
+Fixpoint rms_of (l : list item) : list path :=
+  match l with [] => [] | IMv _ :: r => rms_of r | IRm a _ :: r => a :: rms_of r end.
+
+(* h without the sub-trees rooted at rl *)
+Definition cut (rl : list path) (h : path -> option node) (p : path) : option node :=
+  if existsb (fun a => prefixb a p) rl then None else h p.
+
+Record rm_ok (f : fs) (ml : list mv) (a : path) (isdir : bool) : Prop := {
+  ro_node : exists nd, look f a = Some nd /\ (isdir = true <-> nd = Dir);
+  ro_leaf : forall x s, look f (a ++ x :: s) = None;
+  ro_inc : forall m, In m ml -> incomp a (m_a m) /\ incomp a (m_b m) /\
+                                prefixb a (parent (m_b m)) = false
+}.
+
+Lemma cut_ext rl h1 h2 q : h1 q = h2 q -> cut rl h1 q = cut rl h2 q.
+Proof. intros H. unfold cut. destruct (existsb _ rl); auto. Qed.
+
+Lemma cut_false rl p : (forall a, In a rl -> prefixb a p = false) ->
+  existsb (fun a => prefixb a p) rl = false.
+Proof.
+  intros H. destruct (existsb _ rl) eqn:E; [|reflexivity].
+  apply existsb_exists in E as (a & I & P). rewrite (H a I) in P. discriminate.
+Qed.
+
+Lemma cut_moved1 rl m h q :
+  (forall a, In a rl -> incomp a (m_a m) /\ incomp a (m_b m)) ->
+  cut rl (moved [m] h) q = moved [m] (cut rl h) q.
+Proof.
+  intros H. unfold cut, moved, ex_src. simpl. rewrite orb_false_r.
+  destruct (under (m_b m) q) as [s|] eqn:Eu.
+  - apply under_Some in Eu. subst q.
+    rewrite cut_false by (intros a I; apply incomp_not_under; apply (H a I)).
+    unfold src. destruct s as [|y s], (m_put m) as [[c x]|]; try reflexivity.
+    all: rewrite cut_false by (intros a I; apply incomp_not_under; apply (H a I)); reflexivity.
+  - destruct (existsb (fun a => prefixb a q) rl); destruct (prefixb (m_a m) q); reflexivity.
+Qed.
+
+Lemma prefixb_parent_self a x : parent x = a -> x <> [] -> prefixb a x = true.
+Proof.
+  intros E N. destruct (path_parent_last x N) as (y & H). rewrite E in H. rewrite H. apply prefixb_app.
+Qed.
+
+Lemma moves_pre_del ml f a :
+  moves_pre ml f ->
+  (forall m, In m ml -> incomp a (m_a m) /\ incomp a (m_b m) /\ prefixb a (parent (m_b m)) = false) ->
+  moves_pre ml (fs_del a f).
+Proof.
+  intros [Psrc Pa Pb Pab Pfree Ppar] H.
+  assert (forall q, prefixb a q = false -> look (fs_del a f) q = look f q) as Same.
+  { intros q P. rewrite look_del. rewrite path_eqb_neq; [reflexivity|].
+    intros ->. rewrite prefixb_refl in P. discriminate. }
+  constructor; auto.
+  - intros m I. destruct (Psrc m I) as (nd & La & Hp). destruct (H m I) as ([A1 A2] & _ & _).
+    exists nd. split; [rewrite Same; assumption|].
+    intros NP. destruct (Hp NP) as [ND PO]. split; [exact ND|].
+    rewrite <- PO. apply parent_ok_ext. intros PN. apply Same.
+    destruct (prefixb a (parent (m_a m))) eqn:E; [|reflexivity].
+    apply prefix_parent_prefix in E. congruence.
+  - intros m s I. rewrite look_del. destruct (path_eqb _ _); [reflexivity|apply Pfree; exact I].
+  - intros m I. destruct (Ppar m I) as [PO NU]. destruct (H m I) as (_ & _ & A3). split; [|exact NU].
+    rewrite <- PO. apply parent_ok_ext. intros _. apply Same. exact A3.
+Qed.
+
+Theorem mixed_simultaneous items : forall f,
+  dom_ok f -> moves_pre (mvs_of items) f -> NoDup (rms_of items) ->
+  (forall a d, In (IRm a d) items -> rm_ok f (mvs_of items) a d) ->
+  exists f', run_items items f = (f', None) /\ dom_ok f' /\
+             forall p, look f' p = moved (mvs_of items) (cut (rms_of items) (look f)) p.
+Proof.
+  induction items as [|[m|a d] items IH]; intros f D P ND R.
+  - exists f. split; [reflexivity|]. split; [exact D|]. intros p. reflexivity.
+  - (* a move *)
+    simpl mvs_of in *. simpl rms_of in *.
+    pose proof P as P0. destruct P as [Psrc Pa Pb Pab Pfree Ppar].
+    assert (In m (m :: mvs_of items)) as Im by (left; reflexivity).
+    destruct (exec_mv_ok m f D (Psrc m Im) (Pab m m Im Im)) as (f1 & E1 & D1 & L1).
+    { rewrite <- (app_nil_r (m_b m)). apply Pfree; exact Im. }
+    { apply Ppar; exact Im. }
+    { apply Ppar; [exact Im|exact Im]. }
+    pose proof (moves_pre_step m _ f f1 P0 L1) as P1.
+    assert (forall q, prefixb (m_a m) q = false -> prefixb (m_b m) q = false ->
+                      look f1 q = look f q) as Same.
+    { intros q Ha Hb. rewrite L1. unfold moved. simpl.
+      rewrite (under_prefixb_false _ _ Hb). unfold ex_src. simpl. rewrite Ha. reflexivity. }
+    assert (forall a d, In (IRm a d) items -> incomp a (m_a m) /\ incomp a (m_b m)) as RI.
+    { intros a d I. destruct (R a d (or_intror I)) as [_ _ RI]. destruct (RI m Im) as (A & B & _). auto. }
+    destruct (IH f1 D1 P1 ND) as (f' & E' & D' & L').
+    { intros a d I. destruct (R a d (or_intror I)) as [(nd & Ln & Hd) RL RI']. destruct (RI a d I) as [A B].
+      constructor.
+      - exists nd. split; [|exact Hd]. rewrite Same; [exact Ln|apply A|apply B].
+      - intros x s. rewrite Same; [apply RL| |]; apply incomp_not_under; apply incomp_sym; assumption.
+      - intros m' I'. apply RI'. right; exact I'. }
+    exists f'. split; [simpl; rewrite E1; exact E'|]. split; [exact D'|].
+    intros p. rewrite L'.
+    rewrite (moved_ext _ _ (moved [m] (cut (rms_of items) (look f)))).
+    + simpl in Pa, Pb. destruct Pa as [Pa1 _], Pb as [Pb1 _].
+      apply moved_cons.
+      * intros m' I. apply Pb1; apply in_map; exact I.
+      * intros m' I. apply Pab; [right; exact I|exact Im].
+      * intros m' I. apply Pa1; apply in_map; exact I.
+      * intros m' I. split; apply Pab; try (right; exact I); exact Im.
+      * intros m' I. destruct (Pab m' m (or_intror I) Im) as [A B]. split; assumption.
+    + intros q. rewrite (cut_ext _ _ _ _ (L1 q)). apply cut_moved1.
+      intros a I.
+      assert (exists d, In (IRm a d) items) as (d & Id).
+      { clear - I. induction items as [|[m'|a' d'] items IHi]; simpl in *; [destruct I| |].
+        - destruct (IHi I) as (d & H). exists d. right; exact H.
+        - destruct I as [->|I]; [exists d'; left; reflexivity|].
+          destruct (IHi I) as (d & H). exists d. right; exact H. }
+      apply (RI a d Id).
+  - (* a deletion *)
+    simpl mvs_of in *. simpl rms_of in *.
+    destruct (R a d (or_introl eq_refl)) as [(nd & Ln & Hd) RL RI].
+    inversion ND as [|? ? NI ND']; subst.
+    assert (exec_item (IRm a d) f = Ok (fs_del a f)) as E1.
+    { simpl. destruct d.
+      - assert (nd = Dir) as -> by (apply Hd; reflexivity).
+        unfold t_rmdir. rewrite Ln. rewrite has_child_false_intro by exact RL. reflexivity.
+      - unfold t_delete. rewrite Ln. destruct nd; try reflexivity.
+        assert (false = true) as C by (apply Hd; reflexivity). discriminate. }
+    destruct (IH (fs_del a f)) as (f' & E' & D' & L').
+    + apply dom_ok_del; exact D.
+    + apply moves_pre_del; assumption.
+    + exact ND'.
+    + intros a' d' I. destruct (R a' d' (or_intror I)) as [(nd' & Ln' & Hd') RL' RI'].
+      assert (a' <> a) as NE.
+      { intros ->. apply NI. clear - I. induction items as [|[m'|a2 d2] items IHi]; simpl in *; [destruct I| |].
+        - destruct I as [C|I]; [discriminate|auto].
+        - destruct I as [C|I]; [inversion C; left; reflexivity|right; auto]. }
+      constructor.
+      * exists nd'. split; [|exact Hd']. rewrite look_del, path_eqb_neq by exact NE. exact Ln'.
+      * intros x s. rewrite look_del. destruct (path_eqb _ _); [reflexivity|apply RL'].
+      * exact RI'.
+    + exists f'. split; [simpl exec_item in E1; simpl; rewrite E1; exact E'|]. split; [exact D'|].
+      intros p. rewrite L'. apply moved_ext. intros q. unfold cut. simpl.
+      destruct (existsb (fun a0 => prefixb a0 q) (rms_of items)); [rewrite orb_true_r; reflexivity|].
+      rewrite orb_false_r.
+      destruct (prefixb a q) eqn:Pq.
+      * apply prefixb_true in Pq as (s & ->). destruct s as [|x s].
+        -- rewrite app_nil_r, path_eqb_refl. reflexivity.
+        -- destruct (path_eqb _ _); [reflexivity|apply RL].
+      * rewrite path_eqb_neq; [reflexivity|]. intros ->. rewrite prefixb_refl in Pq. discriminate.
+Qed.
